@@ -27,6 +27,7 @@ MAP.update({
  "C17e": ["C17"], "C17f": ["C17"], "C19e": ["C19"], "C19f": ["C19"], "C20e": ["C20"], "C20f": ["C20"],
 })
 only = sys.argv[1:]
+MX = os.environ.get("MX", "/tmp/mx")  # several matrix runs side by side: MX=/tmp/mx2 DET=detection_b.json
 
 
 def run(sid):
@@ -34,8 +35,8 @@ def run(sid):
     patch = os.path.join(V, "seeded", sid, "patch.diff")
     if not os.path.exists(patch):
         patch = "/tmp/seed/%s.out/%s/patch.diff" % (pid, x) if x in "ab" else ("/tmp/seed2/%s.out/%s/patch.diff" % (pid, {"c": "a", "d": "b"}[x]) if x in "cd" else "/tmp/seed3/%s.out/%s/patch.diff" % (pid, {"e": "a", "f": "b"}[x]))
-    wt = "/tmp/mx/%s" % sid
-    out = "/tmp/mx/out-%s" % sid
+    wt = MX + "/%s" % sid
+    out = MX + "/out-%s" % sid
     subprocess.run(["git", "-C", "/repo", "worktree", "remove", "--force", wt], capture_output=True)
     subprocess.run(["git", "-C", "/repo", "worktree", "prune"], capture_output=True)
     r = subprocess.run(["git", "-C", "/repo", "worktree", "add", "--detach", wt, "HEAD", "-q"], capture_output=True, text=True)
@@ -59,13 +60,13 @@ def run(sid):
     return sid, res
 
 
-os.makedirs("/tmp/mx", exist_ok=True)
+os.makedirs(MX, exist_ok=True)
 sids = [s for s in MAP if not only or s in only]
-fn = os.path.join(V, "seeded", "detection.json")
+fn = os.path.join(V, "seeded", os.environ.get("DET", "detection.json"))
 det = json.load(open(fn)) if os.path.exists(fn) else {}
 with ThreadPoolExecutor(4) as ex:
     for sid, res in ex.map(run, sids):
         det[sid] = res
         print(sid, {k: (v.get("exit"), len(v.get("violations", []))) if isinstance(v, dict) and "exit" in v else v for k, v in res.items()}, flush=True)
         json.dump(det, open(fn, "w"), indent=1, sort_keys=True)
-shutil.rmtree("/tmp/mx", ignore_errors=True)
+shutil.rmtree(MX, ignore_errors=True)
